@@ -30,7 +30,8 @@ type op struct {
 	K   string `json:"k"`
 	V   int    `json:"v"`
 	TTL int    `json:"ttl"`
-	D   int    `json:"d"`
+	D   int    `json:"d"`  // advance: whole seconds ...
+	DT  int    `json:"dt"` // ... plus tenths of a second (traces carry the sum in ticks of 100 ms)
 }
 
 const miss = -1
@@ -52,7 +53,7 @@ func apply(c *ttlcache.Cache[int], clk interface{ Step(time.Duration) }, o op) i
 	case "reset":
 		c.Reset()
 	case "advance":
-		clk.Step(time.Duration(o.D) * time.Second)
+		clk.Step(time.Duration(o.D)*time.Second + time.Duration(o.DT)*100*time.Millisecond)
 	}
 	return 0
 }
@@ -70,7 +71,7 @@ func classifySeq(ops []op, results []int, maxTTL int) string {
 			if maxTTL > 0 && ttl > maxTTL {
 				ttl = maxTTL
 			}
-			st[o.K] = refEntry{o.V, now + ttl}
+			st[o.K] = refEntry{o.V, now + ttl*10} // ticks of 100 ms
 		case "get":
 			want := miss
 			if e, ok := st[o.K]; ok && e.exp > now {
@@ -97,7 +98,7 @@ func classifySeq(ops []op, results []int, maxTTL int) string {
 		case "reset":
 			st = map[string]refEntry{}
 		case "advance":
-			now += o.D
+			now += o.D*10 + o.DT
 		}
 	}
 	return "seq:rejected-by-spec"
@@ -145,6 +146,7 @@ func TestCheck(t *testing.T) {
 		{Op: "set", K: "a", TTL: 1}, {Op: "set", K: "a", TTL: 3}, {Op: "set", K: "b", TTL: 2}, {Op: "set", K: "b", TTL: 1_000_000_000},
 		{Op: "get", K: "a"}, {Op: "get", K: "b"}, {Op: "delete", K: "a"},
 		{Op: "cleanup"}, {Op: "reset"}, {Op: "advance", D: 1}, {Op: "advance", D: 2},
+		{Op: "advance", DT: 1}, // 0.1 s: the clock starts at xx.9 s, so this crosses a whole-second boundary
 	}
 	L := ev.Pick(5, 6)
 	b := &tv.Batch{}
@@ -156,7 +158,7 @@ func TestCheck(t *testing.T) {
 	var cases []seqCase
 	const hugeTTL = int64(1) << 62 // far beyond anything a Duration can hold: must be capped by MaxTTL before any arithmetic
 	runSeq := func(maxTTL int, ops []op) {
-		clk := clocktesting.NewFakeClock(time.Unix(100000, 0))
+		clk := clocktesting.NewFakeClock(time.Unix(100000, 900_000_000)) // sub-second phase .9: expiry must not be rounded to whole seconds
 		c := ttlcache.NewCacheWithClock[int](ttlcache.CacheOptions{MaxTTL: int64(maxTTL), CleanupInterval: 1000 * time.Hour}, clk)
 		b.Start(tv.M{"maxTTL": maxTTL, "cleaner": false})
 		res := make([]int, len(ops))
@@ -180,7 +182,7 @@ func TestCheck(t *testing.T) {
 			} else {
 				res[i] = apply(c, clk, o)
 			}
-			b.Ev("op", tv.M{"op": o.Op, "k": o.K, "v": o.V, "ttl": o.TTL, "d": o.D, "res": res[i]})
+			b.Ev("op", tv.M{"op": o.Op, "k": o.K, "v": o.V, "ttl": o.TTL, "d": o.D*10 + o.DT, "res": res[i]})
 		}
 		c.Stop()
 		cases = append(cases, seqCase{MaxTTL: maxTTL, Ops: ops2, results: res})
@@ -339,7 +341,7 @@ func TestCheck(t *testing.T) {
 	e.Set("evaluations", int64(nSeq+cb.Len()+sb.Len()+rb.Len()+db.Len()))
 	e.Set("traces_validated_against_impl", int64(nSeq+cb.Len()+sb.Len()+rb.Len()+db.Len()))
 	e.Set("concurrent_histories_with_overlap", int64(overlaps))
-	e.Set("rule", "sequential: every sequence over a 10-letter alphabet (Set a ttl1/ttl3, Set b ttl2, Get a/b, Delete a, Cleanup, Reset, Advance 1s/2s) up to length L that starts with Set and ends with Get, for MaxTTL in {0,2}, plus every one-key sequence of length 6..7(8) over {Set a ttl1/ttl3, Get a, Cleanup, Advance 2s}, plus seeded random sequences of length 6-15; concurrent: 3 goroutines x 4 random ops with the periodic cleaner on, call/return order recorded under one mutex; stop: Stop raced against a cleaner parked inside Cleanup. non-trivial (sequential) = contains a Set and a Get; distinct by (MaxTTL, op sequence)")
+	e.Set("rule", "sequential: every sequence over a 12-letter alphabet (Set a ttl1/ttl3, Set b ttl2, Get a/b, Delete a, Cleanup, Reset, Advance 1s/2s/0.1s; the clock starts at xx.9 s) up to length L that starts with Set and ends with Get, for MaxTTL in {0,2}, plus every one-key sequence of length 6..7(8) over {Set a ttl1/ttl3, Get a, Cleanup, Advance 2s}, plus seeded random sequences of length 6-15; concurrent: 3 goroutines x 4 random ops with the periodic cleaner on, call/return order recorded under one mutex; stop: Stop raced against a cleaner parked inside Cleanup. non-trivial (sequential) = contains a Set and a Get; distinct by (MaxTTL, op sequence)")
 
 	selfTest(e)
 }
@@ -438,7 +440,7 @@ func (h *hist) call(o op) int {
 	h.mu.Lock()
 	defer h.mu.Unlock()
 	h.id++
-	h.b.Ev("call", tv.M{"id": h.id, "op": o.Op, "k": o.K, "v": o.V, "ttl": o.TTL, "d": o.D})
+	h.b.Ev("call", tv.M{"id": h.id, "op": o.Op, "k": o.K, "v": o.V, "ttl": o.TTL, "d": o.D*10 + o.DT})
 	return h.id
 }
 func (h *hist) ret(id, res int) {
@@ -771,9 +773,9 @@ func selfTest(e *ev.Evidence) {
 	mk := func(res1, res2 int) {
 		b.Start(tv.M{"maxTTL": 0, "cleaner": false})
 		b.Ev("op", tv.M{"op": "set", "k": "a", "v": 1, "ttl": 2, "d": 0, "res": 0})
-		b.Ev("op", tv.M{"op": "advance", "k": "", "v": 0, "ttl": 0, "d": 1, "res": 0})
+		b.Ev("op", tv.M{"op": "advance", "k": "", "v": 0, "ttl": 0, "d": 10, "res": 0})
 		b.Ev("op", tv.M{"op": "get", "k": "a", "v": 0, "ttl": 0, "d": 0, "res": res1})
-		b.Ev("op", tv.M{"op": "advance", "k": "", "v": 0, "ttl": 0, "d": 1, "res": 0})
+		b.Ev("op", tv.M{"op": "advance", "k": "", "v": 0, "ttl": 0, "d": 10, "res": 0})
 		b.Ev("op", tv.M{"op": "get", "k": "a", "v": 0, "ttl": 0, "d": 0, "res": res2})
 	}
 	mk(1, miss)
